@@ -42,7 +42,7 @@ func main() {
 	}
 	r := evidence.New("C08", "exploration")
 	r.Rule("case = (seeded DAG of 6–26 nodes incl. referrers, indexes, absent subjects, a sha512 blob; AutoSaveIndex on|off; AutoGC on|off; 3–6 reference names incl. unicode/odd ones; " +
-		"random history of 12–45 Push/Tag/re-tag/Untag/Delete/GC/SaveIndex steps with tag descriptors carrying annotations, platform (os/architecture/variant/os.version/os.features), artifactType, urls and data alone and combined (also re-tags changing only those fields), tag descriptors obtained from Resolve(<digest>) (octet-stream media type for plain blobs), hand-made octet-stream descriptors on manifests that keep a pinned name under their manifest type (sometimes followed by a typed tag), tags on blobs, several tags per manifest, some operations aimed at absent operands, some histories continuing on the reopened store). " +
+		"random history of 12–45 Push/Tag/re-tag/Untag/Delete/GC/SaveIndex steps with tag descriptors carrying annotations, platform (os/architecture/variant/os.version/os.features), artifactType, urls and data alone and combined (also re-tags changing only those fields), tag descriptors obtained from Resolve(<digest>) (octet-stream media type for plain blobs), hand-made octet-stream descriptors on manifests that keep a pinned name under their manifest type (sometimes followed by a typed tag), tags on blobs, several tags per manifest, some operations aimed at absent operands, Tag of content that Delete/AutoGC/GC removed earlier in the history (must fail and change nothing), first graph use of every reopened store made with a cancelled context, some histories continuing on the reopened store). " +
 		"Oracle: on-disk validity after every step (AutoSaveIndex on) and after every SaveIndex (off); Obs(original)=Obs(reopened) after every step via fs.FS and at checkpoints via rw, fs.FS, archive/tar tar, system tar, and (at checkpoints and a quarter of the steps) via archives made earlier in the history and updated in place by appending the changed files (system tar -r; archive/tar append mode; re-made when a file disappeared), " +
 		"Obs = Tags, Resolve of every reference name used, Resolve of every digest seen (incl. never-pushed and foreign ones), Exists, Fetch bytes, Predecessors of every node. " +
 		"distinct = hash(options, sequence of operation kinds with outcomes); non-trivial = history contains a successful re-tag or untag and a successful delete or GC. " +
@@ -309,6 +309,7 @@ func runCase(phase string, i int) worker.Result {
 				break
 			}
 			ns.AutoSaveIndex, ns.AutoGC = autoSave, autoGC
+			ocicheck.FirstUseCancelled(ns) // a failed first graph use must not damage the store
 			st = ns
 			history = append(history, "reopen-continue")
 			kinds = append(kinds, "R")
